@@ -1810,12 +1810,12 @@ def b_validator_methods(S):
 
 
 def b_grid_sampling(S):
-    """`run_grid_sampling`: empty trace frame -> empty result; a precursor grid is copied and used as is (TypeError when it is not a frame); otherwise the
+    """`run_grid_sampling`: empty trace frame -> empty result; a COPY of a precursor grid (`copy_`, an explicit parameter) is used as is (TypeError when it is not a frame); otherwise the
     cell width must be a positive number not close to zero (ValueError) and the grid is created over the BRANCHES when there are any, else over the traces;
     then the cells are sampled."""
     src = S[GRID]
     C = {"traces.empty": "(List.isEmpty traces)", "gpd.GeoDataFrame()": "empty_result", "isinstance(precursor_grid, gpd.GeoDataFrame)": "(is_frame precursor_grid)",
-         "precursor_grid.copy()": "(precursor_grid.getD dflt)", "np.isclose(cell_width, 0.0)": "(isclose0 cell_width)", "branches.shape[0]": "(List.length branches)",
+         "precursor_grid.copy()": "(copy_ (precursor_grid.getD dflt))", "np.isclose(cell_width, 0.0)": "(isclose0 cell_width)", "branches.shape[0]": "(List.length branches)",
          "create_grid(cell_width, lines=lines)": "(create_grid_ cell_width lines)",
          "sample_grid(grid, traces, nodes, branches=branches, snap_threshold=snap_threshold, resolve_branches_and_nodes=resolve_branches_and_nodes)": "(sample_ grid)"}
     T = {"traces.empty": "Bool", "gpd.GeoDataFrame()": "R", "isinstance(precursor_grid, gpd.GeoDataFrame)": "Bool", "precursor_grid.copy()": "Gr", "grid": "Gr",
@@ -1823,7 +1823,7 @@ def b_grid_sampling(S):
          "sample_grid(grid, traces, nodes, branches=branches, snap_threshold=snap_threshold, resolve_branches_and_nodes=resolve_branches_and_nodes)": "R", "sampled_grid": "R"}
     return translate_function(
         src, "run_grid_sampling", "run_grid_sampling", {"traces": "List L", "branches": "List L", "cell_width": "Rat", "precursor_grid": "Option Gr"}, "R", C, types=T, raises=True,
-        extra_params=[("{L}", "Type"), ("{Gr}", "Type"), ("{R}", "Type"), ("empty_result", "R"), ("is_frame", "Option Gr → Bool"), ("dflt", "Gr"), ("isclose0", "Rat → Bool"),
+        extra_params=[("{L}", "Type"), ("{Gr}", "Type"), ("{R}", "Type"), ("empty_result", "R"), ("is_frame", "Option Gr → Bool"), ("dflt", "Gr"), ("copy_", "Gr → Gr"), ("isclose0", "Rat → Bool"),
                       ("create_grid_", "Rat → List L → Gr"), ("sample_", "Gr → R")],
         slice_from="if traces.empty", default_num="Rat", join="tuple")
 
